@@ -32,6 +32,11 @@ I = [
     ['preamble', {'text': 'é', 'encoding': 'ascii'}],
     ['preamble', {'text': 'x', 'encoding': 'no-such-codec'}],
     ['preamble', {'text': 'x', 'encoding': 'rot13', 'indent': 0}],
+    ['preamble', {'text': 'x\ny', 'indent': 4.0}],
+    ['preamble', {'text': 'x', 'indent': '4'}],
+    ['preamble', {'text': 'x', 'indent': 2 ** 64}],
+    ['preamble', {'text': 'x', 'indent': float('nan')}],
+    ['preamble', {'text': 'x', 'indent': [4]}],
     ['preamble', {'text': 'lone\udc80', 'encoding': 'utf-8'}],
     ['preamble', {'text': '\udcff', 'encoding': 'latin-1', 'indent': 0}],
     ['preamble', {'text': '\ud800', 'encoding': 'utf-16'}],
@@ -87,9 +92,24 @@ def materialize(kw):
     return kw
 
 
+def _same(a, b):
+    if isinstance(a, float) and isinstance(b, float):
+        return a == b or (a != a and b != b)
+
+    if type(a) is not type(b):
+        return False
+
+    if isinstance(a, dict):
+        return set(a) == set(b) and all(_same(a[k], b[k]) for k in a)
+
+    if isinstance(a, list):
+        return len(a) == len(b) and all(_same(x, y) for x, y in zip(a, b))
+
+    return a == b
+
+
 def is_invalid(call):
-    op, kw = call
-    return any(call == i for i in I)
+    return any(_same(list(call), list(i)) for i in I)
 
 
 def judge(calls, main='utf-8'):
@@ -285,7 +305,7 @@ def checks():
             'exhaustive', chunks, run_chunk, run_case=run_case,
             rule='all call sequences over the 5 operations with valid '
                  'arguments up to length LV, and all sequences over 10 valid '
-                 '+ 22 invalid-argument variants (wrong types, empty content, '
+                 '+ 27 invalid-argument variants (wrong types, empty content, '
                  'bad option values, unencodable text incl. lone surrogates, '
                  'unknown and non-text codecs) up to length LA; per step: '
                  'accepted iff the section may follow (my table) and the '
